@@ -390,7 +390,14 @@ func randEdits(r *hx.R, hosts []hostNode, scratchDev string, many bool) *specs.C
 	return e
 }
 
+// envDefectRepaired: /repo carries the repair of the former known finding C03/env-existing-name
+const envDefectRepaired = true
+
 func envClassKnown(init *oci.Spec, e *specs.ContainerEdits) bool {
+	if envDefectRepaired {
+		// repaired defect D19 (Apply drops the variables about to be set): no input class is set aside any more
+		return false
+	}
 	if init.Process == nil {
 		return false
 	}
